@@ -206,6 +206,20 @@ def base_histories(tier: str, rnd: random.Random) -> list[dict[str, Any]]:
                     w1 = dict(w0); w1[m] = v
                     rjobs.append({"w0": w0, "w1": w1, "cat": "R"})
     rnd.shuffle(rjobs)
+    # import cycle b <-> c: the two-phase write of a multi-module SCC (data of all members, then metas)
+    cyc = []
+    for a in ("a0", "a2", "a3"):
+        for b in ("b0", "b1", "b2"):
+            for c0_, c1_ in (("c5", "c6"), ("c6", "c5"), ("c5", "c7"), ("c7", "c5")):
+                cyc.append({"w0": {"a": a, "b": b, "c": c0_}, "w1": {"a": a, "b": b, "c": c1_}, "cat": "R-cycle"})
+    for a in ("a0", "a2"):
+        for c_ in ("c5", "c6"):
+            for b0_, b1_ in (("b0", "b1"), ("b1", "b0"), ("b0", "b2")):
+                cyc.append({"w0": {"a": a, "b": b0_, "c": c_}, "w1": {"a": a, "b": b1_, "c": c_}, "cat": "R-cycle"})
+    if tier == "quick":
+        rjobs = cyc[0:4] + cyc[36:38] + rjobs
+    else:
+        rjobs = cyc + rjobs
     if tier == "quick":
         # deterministic core (no seed involved): for every kind of b, every edit of c from/to the default
         # content and every edit of b under c[1,0]; `a` edits and catalogue R are sampled
@@ -220,7 +234,7 @@ def base_histories(tier: str, rnd: random.Random) -> list[dict[str, Any]]:
                 core.append(j)
         rest = [j for j in jobs if j not in core]
         rnd.shuffle(rest)
-        return core + rest[:6] + rjobs[:8]
+        return core + rest[:6] + rjobs[:14]
     return jobs + rjobs[:250]
 
 
